@@ -638,7 +638,8 @@ func replay(c *mcx.Ctx, raw json.RawMessage) (string, string) {
 func init() {
 	mcx.Register(&mcx.Driver{
 		ID: "C19", Run: run, Replay: replay,
-		Rule: "full product over the committed key pool: key {Ed25519 x2, RSA-2048, RSA-3072, P-224, P-256, P-384, P-521, six Ed25519 keys whose public key or seed starts or ends with 0x00 / 0x20 / 0x0a, two P-256 keys whose X coordinate resp. private scalar starts with a zero byte} x encoding {PKCS#8, PKCS#1, SEC1 private; PKIX public; X.509 certificate self-signed and issued by an RSA / ECDSA / Ed25519 CA} where it applies x framing {plain, leading text, trailing text, second PEM block, CRLF, leading blank lines, 100 kB of leading newlines, a reader that delivers one byte / half a request at a time} x API {LoadKey, LoadKeyDefaults, LoadKeyReader, LoadKeyReaderDefaults} x 7 (scheme, hash-algorithm) parameter sets for the explicit APIs (quick: all sets on plain framing, the valid set on the others); " +
+		Rule: "also: histories whose first load (into another key object) is refused for its parameters; key files behind absolute and relative symbolic links; " +
+			"full product over the committed key pool: key {Ed25519 x2, RSA-2048, RSA-3072, P-224, P-256, P-384, P-521, six Ed25519 keys whose public key or seed starts or ends with 0x00 / 0x20 / 0x0a, two P-256 keys whose X coordinate resp. private scalar starts with a zero byte} x encoding {PKCS#8, PKCS#1, SEC1 private; PKIX public; X.509 certificate self-signed and issued by an RSA / ECDSA / Ed25519 CA} where it applies x framing {plain, leading text, trailing text, second PEM block, CRLF, leading blank lines, 100 kB of leading newlines, a reader that delivers one byte / half a request at a time} x API {LoadKey, LoadKeyDefaults, LoadKeyReader, LoadKeyReaderDefaults} x 7 (scheme, hash-algorithm) parameter sets for the explicit APIs (quick: all sets on plain framing, the valid set on the others); " +
 			"histories: a second load into a Key object that already holds another key, for every ordered pair of 3 keys x 5 encodings, with default and explicit parameters; one identifier across all forms of a pair and pairwise different identifiers; sign(private form) x verify(public / certificate form) for same and other pairs incl. independent crypto; every single-byte substitution (255 values) and every truncation of the DER of the smallest encodings (Ed25519 PKIX and PKCS#8, P-224 PKIX; thorough: + P-256 SEC1); foreign material (empty, garbage, CSR, encrypted PKCS#8, X25519, PKCS#1 public, wrong label, nil reader, missing file). " +
 			"Oracle: crypto/x509 directly decides what the material is; type, default scheme, public half, halves present and ref.KeyID must agree; never a panic. states = cases.",
 		Assumptions: []string{"key values beyond the pool and the SPIFFE SVID conversion (internal package) are outside", "certificates are self-signed at run time from pool keys (the key id does not depend on the certificate bytes)"},
